@@ -17,7 +17,15 @@ def handle (line : String) : String :=
       let mainKind ← tokNat; let mainK ← tokNat
       let tmpKind ← tokNat; let tmpK ← tokNat
       let loaded ← tokNat
-      let data : Bytes := (List.range lenNew).map (· + 1)
+      -- the model treats every proper, non-empty prefix alike: long files are scaled down to 16
+      -- bytes (0 ↦ 0, full length ↦ 16, anything in between ↦ 1..15) so that the enumeration of
+      -- crash states stays small
+      let big := lenNew > 16
+      let lenM := if big then 16 else lenNew
+      let sc (k : Nat) : Nat := if !big then k else if k == 0 then 0 else if k ≥ lenNew then 16 else 1 + (k - 1) % 15
+      let mainK := sc mainK
+      let tmpK := sc tmpK
+      let data : Bytes := (List.range lenM).map (· + 1)
       let old : Bytes := [0]
       let blob (kind k : Nat) : Option (Option Bytes) :=
         match kind with
